@@ -290,10 +290,14 @@ func (e *Engine) eqVal(a, b Value) *Term {
 		return c.False
 	case TimeV:
 		y := b.(TimeV)
-		if x.UTC != y.UTC {
-			panic(unsupported("== on time.Time values in possibly different locations"))
+		if (x.Inst == nil) != (y.Inst == nil) {
+			panic(unsupported("== on an abstract instant and a civil time"))
 		}
-		return c.And(c.Eq(x.Y, y.Y), c.Eq(x.M, y.M), c.Eq(x.D, y.D), c.Eq(x.H, y.H), c.Eq(x.Mi, y.Mi), c.Eq(x.S, y.S), c.Eq(x.Ns, y.Ns))
+		if x.Inst != nil {
+			return c.And(c.Eq(x.Inst, y.Inst), c.Eq(x.UTC, y.UTC))
+		}
+		// struct equality: same wall/ext encoding and the same *Location (UTC flag: nil / Local)
+		return c.And(c.Eq(x.UTC, y.UTC), c.Eq(x.Y, y.Y), c.Eq(x.M, y.M), c.Eq(x.D, y.D), c.Eq(x.H, y.H), c.Eq(x.Mi, y.Mi), c.Eq(x.S, y.S), c.Eq(x.Ns, y.Ns))
 	case FloatV:
 		return c.Bool(x.F == b.(FloatV).F)
 	case nil:
